@@ -139,10 +139,13 @@ def _collector(ctx):
     sc = server_class(ctx)
     for q in sc.methods.values():
         g = ctx.m.funcs[q]
-        for loop in (n for n in ctx.m.walk_own(g.node) if isinstance(n, ast.For)):
+        loops = [(n, n.iter) for n in ctx.m.walk_own(g.node) if isinstance(n, ast.For)]
+        # the submissions may also sit in a comprehension: {path: pool.apply_async(...) for path in files}
+        loops += [(n, n.generators[0].iter) for n in ctx.m.walk_own(g.node) if isinstance(n, (ast.DictComp, ast.ListComp, ast.SetComp, ast.GeneratorExp)) and n.generators]
+        for loop, iter_ in loops:
             if not any(isinstance(c.func, ast.Attribute) and c.func.attr in ("apply_async", "submit", "apply") for c in calls_in(loop)):
                 continue
-            it = deref(ctx, g, loop.iter)
+            it = deref(ctx, g, iter_)
             if isinstance(it, ast.Call):
                 k, tg = ctx.r.resolve_call(g, it)
                 if k in ("typed", "module", "import") and len(tg) == 1:
